@@ -18,6 +18,8 @@ def run(ctx):
     ctx.uses('statistics', 'utils')
     ctx.assume(N.STAT_AXIOM_REASONS[2])
     ctx.assume('real-number semantics; observations and weights are finite numbers (NaN and negative weights are refused by register)')
+    from ..statrules import memo_soundness
+    memo_soundness(ctx, 'R10.8', ['statistics'])
     ctx.rule('R10.1', 'every weighted-tally query and register is total (numeric abstract interpretation)')
     N.run_totality(ctx, 'R10.1', {'statistics', 'utils'},
                    [('WeightedTally', GETTERS + ['register']), ('TimestampWeightedTally', GETTERS + ['register', 'end_observations']),
